@@ -28,8 +28,12 @@ Inductive xid :=
 | XKbd                    (* KeyboardInterrupt raised by local code *)
 | XSysExit                (* SystemExit raised by local code *)
 | XBaseOther              (* any other BaseException that is not an Exception (incl. rebuilt remote KeyboardInterrupt) *)
-| XExcOther.              (* any other subclass of Exception *)
-Definition is_exception (x : xid) : bool := match x with XStd _ | XExcOther => true | _ => false end.
+| XExcOther               (* any other subclass of Exception *)
+| XCarry (os : list N)    (* an Exception raised by service code whose arguments / attributes carry these objects *)
+| XAttrObj (o : N).       (* AttributeError raised by a failed lookup on object o: CPython (3.10+) attaches the object as .obj *)
+Definition is_exception (x : xid) : bool := match x with XStd _ | XExcOther | XCarry _ | XAttrObj _ => true | _ => false end.
+(* the objects an exception brings with it *)
+Definition carried (x : xid) : list N := match x with XCarry os => os | XAttrObj o => [o] | _ => [] end.
 
 Inductive res (A : Type) := ROk (a : A) | RRaise (x : xid) | RUnm.
 Arguments ROk {A}. Arguments RRaise {A}. Arguments RUnm {A}.
@@ -178,6 +182,9 @@ Inductive event :=
 | EClear                                        (* self._local_objects.clear() *)
 | EDisconnect                                   (* self._local_root.on_disconnect(self) *)
 | EAsk (h : Z)                                  (* a request sent to the peer while handling the message *)
+| EPayload (o : oid) (op : nop)                 (* vinegar.dump / traceback formatting applied repr() / dir() to an object the exception carries *)
+| ECtx (o : oid) (op : nop)                     (* traceback formatting of a chained (caught) exception: dir(o) for an AttributeError on o, str() of what it carries *)
+| ECls (m : text)                               (* netref.class_factory ran a module-level __getattr__ for a peer-declared name: module m imported *)
 | EVin (e : Vinegar.effect).                    (* what vinegar.load did: import attempt / cls.__new__ / (never) constructor *)
 
 (* ------------------------------------------------------------------ configuration, service semantics, state *)
@@ -187,7 +194,8 @@ Record config := {
   c_pickle : bool;              (* allow_pickle *)
   c_rflags : Vinegar.rflags;    (* import_custom_exceptions, instantiate_custom_exceptions, instantiate_oldstyle_exceptions *)
   c_prop_kbd : bool;            (* propagate_KeyboardInterrupt_locally *)
-  c_prop_sysexit : bool }.      (* propagate_SystemExit_locally *)
+  c_prop_sysexit : bool;        (* propagate_SystemExit_locally *)
+  c_cls_mode : Vinegar.lookup_mode }.   (* generated fact: how netref.class_factory reads a peer-named class out of an imported module *)
 
 Record sem (W : Type) := {
   s_root : oid;
@@ -206,8 +214,13 @@ Arguments s_hook {W}. Arguments s_op {W}. Arguments s_val {W}. Arguments s_built
 Inductive panswer := PReply (pkg : pyval) | PExc (payload : pyval) | PSilent.
 
 Record hst (W : Type) := {
-  tbl : table; wst : W; tr : list event; script : list panswer; closed : bool; approx : bool }.
+  tbl : table; wst : W; tr : list event; script : list panswer; closed : bool; approx : bool;
+  ccache : list pyval;          (* keys of self._netref_classes_cache: id packs of peer classes (instance id 0) whose INSPECT was answered *)
+  pseen : list pyval;           (* id packs for which a proxy was made on this connection (the weak _proxy_cache may still hold it) *)
+  ctxs : list (oid * nop);      (* what the exceptions a try/except of the current handler caught carry (they become __context__ of a later one) *)
+  lost : bool }.                (* a message met something the model does not describe: from then on the model says nothing *)
 Arguments tbl {W}. Arguments wst {W}. Arguments tr {W}. Arguments script {W}. Arguments closed {W}. Arguments approx {W}.
+Arguments ccache {W}. Arguments pseen {W}. Arguments ctxs {W}. Arguments lost {W}.
 
 (* ------------------------------------------------------------------ handler bodies as data *)
 Inductive hexp :=
@@ -274,9 +287,11 @@ Definition dispatch : list (Z * string) :=
    (9, "repr"); (10, "str"); (11, "cmp"); (12, "hash"); (13, "dir"); (14, "pickle"); (15, "del"); (16, "inspect");
    (17, "buffiter"); (18, "oldslicing"); (19, "ctxexit"); (20, "instancecheck")]%Z%string.
 (* the if-ladders of _dispatch, _unbox and _box as data (tie: HostileTie) *)
-Inductive dact := DRequest | DReply | DException.
+(* DReply / DException: the payload is rebuilt unguarded (a failure escapes _dispatch); DReplyG / DExceptionG: through
+   _dispatch_response, where a failure that is an Exception other than EOFError is delivered to the request the response answers *)
+Inductive dact := DRequest | DReply | DException | DReplyG | DExceptionG.
 Inductive uact := UValue | UTuple | ULocal | URemote.
-Definition msg_ladder : list (Z * dact) := [(1, DRequest); (2, DReply); (3, DException)]%Z.
+Definition msg_ladder : list (Z * dact) := [(1, DRequest); (2, DReplyG); (3, DExceptionG)]%Z.
 Definition unbox_ladder : list (Z * uact) := [(1, UValue); (2, UTuple); (3, ULocal); (4, URemote)]%Z.
 Definition box_ladder : list (string * Z) := [("dumpable", 1); ("tuple", 2); ("own_netref", 3); ("else", 4)]%Z%string.
 Definition MSG_REQUEST := 1%Z. Definition MSG_REPLY := 2%Z. Definition MSG_EXCEPTION := 3%Z.
@@ -305,7 +320,7 @@ Definition default_config : config :=
   {| c_attr := {| sw := default_switches; exposed_prefix := txt "exposed_"; safe_attrs := map txt default_safe |};
      c_guard := true; c_pickle := false;
      c_rflags := {| Vinegar.import_custom := false; Vinegar.inst_custom := false; Vinegar.inst_oldstyle := false |};
-     c_prop_kbd := true; c_prop_sysexit := false |}.
+     c_prop_kbd := true; c_prop_sysexit := false; c_cls_mode := Vinegar.LkDict |}.
 
 (* ------------------------------------------------------------------ the interpreter *)
 Section Interp.
@@ -336,22 +351,29 @@ Definition lift {A} (r : result A) : M A :=
   match r with Ok a => ret a | Raise e => raise_std e | _ => unm end.
 
 Definition with_tr (s : state) (t : list event) : state :=
-  {| tbl := tbl s; wst := wst s; tr := t; script := script s; closed := closed s; approx := approx s |}.
+  {| tbl := tbl s; wst := wst s; tr := t; script := script s; closed := closed s; approx := approx s; ccache := ccache s; pseen := pseen s; ctxs := ctxs s; lost := lost s |}.
 Definition with_tbl (s : state) (t : table) : state :=
-  {| tbl := t; wst := wst s; tr := tr s; script := script s; closed := closed s; approx := approx s |}.
+  {| tbl := t; wst := wst s; tr := tr s; script := script s; closed := closed s; approx := approx s; ccache := ccache s; pseen := pseen s; ctxs := ctxs s; lost := lost s |}.
 Definition with_w (s : state) (w : W) : state :=
-  {| tbl := tbl s; wst := w; tr := tr s; script := script s; closed := closed s; approx := approx s |}.
+  {| tbl := tbl s; wst := w; tr := tr s; script := script s; closed := closed s; approx := approx s; ccache := ccache s; pseen := pseen s; ctxs := ctxs s; lost := lost s |}.
 Definition with_script (s : state) (l : list panswer) : state :=
-  {| tbl := tbl s; wst := wst s; tr := tr s; script := l; closed := closed s; approx := approx s |}.
+  {| tbl := tbl s; wst := wst s; tr := tr s; script := l; closed := closed s; approx := approx s; ccache := ccache s; pseen := pseen s; ctxs := ctxs s; lost := lost s |}.
 Definition with_closed (s : state) : state :=
-  {| tbl := tbl s; wst := wst s; tr := tr s; script := script s; closed := true; approx := approx s |}.
+  {| tbl := tbl s; wst := wst s; tr := tr s; script := script s; closed := true; approx := approx s; ccache := []; pseen := pseen s; ctxs := ctxs s; lost := lost s |}.
 Definition with_approx (s : state) : state :=
-  {| tbl := tbl s; wst := wst s; tr := tr s; script := script s; closed := closed s; approx := true |}.
+  {| tbl := tbl s; wst := wst s; tr := tr s; script := script s; closed := closed s; approx := true; ccache := ccache s; pseen := pseen s; ctxs := ctxs s; lost := lost s |}.
+Definition with_caches (s : state) (c p : list pyval) : state :=
+  {| tbl := tbl s; wst := wst s; tr := tr s; script := script s; closed := closed s; approx := approx s; ccache := c; pseen := p; ctxs := ctxs s; lost := lost s |}.
+Definition with_ctxs (s : state) (l : list (oid * nop)) : state :=
+  {| tbl := tbl s; wst := wst s; tr := tr s; script := script s; closed := closed s; approx := approx s; ccache := ccache s; pseen := pseen s; ctxs := l; lost := lost s |}.
+Definition with_lost (s : state) : state :=
+  {| tbl := tbl s; wst := wst s; tr := tr s; script := script s; closed := closed s; approx := approx s; ccache := ccache s; pseen := pseen s; ctxs := ctxs s; lost := true |}.
 Definition add_ev (s : state) (e : event) : state := with_tr s (e :: tr s).
 Definition emit (e : event) : M unit := fun s => (add_ev s e, ROk tt).
 Definition mark_approx : M unit := fun s => (with_approx s, ROk tt).
 
-Definition yields (r : res lval) : list oid := match r with ROk v => objs_of v | _ => [] end.
+(* the objects an operation hands out: in its result, or carried by the exception it raises *)
+Definition yields (r : res lval) : list oid := match r with ROk v => objs_of v | RRaise x => carried x | RUnm => [] end.
 (* a nameless operation on an object of the serving process *)
 Definition touch (op : nop) (o : oid) (args : list lval) : M lval :=
   fun s => let '(w, r) := s_op S (wst s) op o args in (with_w (add_ev s (ETouch o op (yields r))) w, r).
@@ -428,6 +450,7 @@ Definition set_fails (nv : pyval * pyval) : bool :=
       else if text_eqb n (txt "__traceback__") || text_eqb n (txt "__cause__") || text_eqb n (txt "__context__")
            then (match snd nv with PNone => false | _ => true end)
       else if text_eqb n (txt "args") then negb (iterable (snd nv))
+      else if text_eqb n (txt "__suppress_context__") then (match snd nv with PBool _ => false | _ => true end)
       else false
   | _ => true                                   (* attribute name must be string *)
   end.
@@ -450,6 +473,14 @@ Definition load_exc (payload : pyval) : M xid :=
     | Raise e => (s', RRaise (XStd e))
     | _ => (s', RUnm)
     end.
+
+(* raise self._unbox_exc(payload) / AsyncResult.value of an exception answer *)
+Definition raise_loaded {A} (payload : pyval) : M A :=
+  fun s => match load_exc payload s with
+           | (s1, ROk x) => (s1, RRaise x)
+           | (s1, RRaise x) => (s1, RRaise x)
+           | (s1, RUnm) => (s1, RUnm)
+           end.
 
 (* ---- _unbox ---- *)
 Definition index3 (v : pyval) : res (pyval * pyval * pyval) :=
@@ -476,6 +507,36 @@ Definition methods_ok (v : lval) : res unit :=
   | _ => RUnm
   end.
 Definition sane_name (n : text) : bool := forallb (fun c => (N.leb 32 c) && (N.ltb c 127)) n.
+
+Definition emit_all (l : list event) : M unit := fun s => (fold_left add_ev l s, ROk tt).
+Definition in_ccache (k : pyval) : M bool := fun s => (s, ROk (existsb (pv_eqb k) (ccache s))).
+Definition was_seen (k : pyval) : M bool := fun s => (s, ROk (existsb (pv_eqb k) (pseen s))).
+Definition note_seen (k : pyval) : M unit := fun s => (with_caches s (ccache s) (k :: pseen s), ROk tt).
+Definition note_class (k : pyval) : M unit := fun s => (with_caches s (k :: ccache s) (pseen s), ROk tt).
+(* netref.class_factory: the peer-declared dotted name is tried as a module, then split at each '.' from the right; in the
+   first prefix that is an imported module the rest is looked up (getattr(module, rest, None) runs a module-level __getattr__
+   hook, module.__dict__.get(rest) does not) *)
+Fixpoint dot_splits (pre rest : text) : list (text * text) :=
+  match rest with
+  | [] => []
+  | c :: r => let tail := dot_splits (c :: pre) r in if N.eqb c 46 then tail ++ [(rev pre, r)] else tail
+  end.
+Definition walk_candidates (n : text) : list (text * text) := (n, []) :: dot_splits [] n.
+Definition class_imports (name : text) : list text :=
+  let fm := Vinegar.find_module (s_env S) (Vinegar.modules (s_env S)) in
+  match find (fun pr => match fm (fst pr) with Some _ => true | None => false end) (walk_candidates name) with
+  | Some (m, cls) =>
+      match fm m with
+      | Some ns => match Vinegar.assoc cls ns with
+                   | Some (Vinegar.ALazy imports _) => if Vinegar.hooks_run (c_cls_mode C) (c_rflags C) then imports else []
+                   | _ => []
+                   end
+      | None => []
+      end
+  | None => []
+  end.
+Definition class_walk (name : text) : M unit := emit_all (map ECls (class_imports name)).
+Definition is_zero (v : pyval) : bool := match num_of v with Some 0%Z => true | _ => false end.
 
 (* tuple(self._unbox(item) for item in value): a StopIteration raised inside the generator expression comes out as RuntimeError (PEP 479) *)
 Definition in_genexpr {A} (m : M A) : M A :=
@@ -512,17 +573,25 @@ Fixpoint unbox (f : nat) (pkg : pyval) : M lval :=
               | None => unm
               | Some name =>
                   let idp := PTuple [PStr name; b; c] in
-                  if is_builtin_name name then ret (LP idp)
+                  dom cached <- in_ccache idp;
+                  if is_zero c && cached then ret (LP idp)             (* self._netref_classes_cache *)
+                  else if is_builtin_name name then ret (LP idp)       (* netref.builtin_classes_cache *)
                   else if negb (sane_name name) then unm
-                  else (* _netref_factory: cls_methods = self.sync_request(HANDLE_INSPECT, id_pack) *)
+                  else (* _netref_factory: cls_methods = self.sync_request(HANDLE_INSPECT, id_pack) -- unless the weak proxy
+                          cache still holds a proxy for this id pack (not decidable here: flagged approximate) *)
+                    dom seen <- was_seen idp;
+                    dom _ <- (if seen then mark_approx else ret tt);
+                    dom _ <- note_seen idp;
                     dom _ <- emit (EAsk HANDLE_INSPECT);
                     dom a <- pop_answer;
                     match a with
                     | PSilent => raise_std TimeoutError
-                    | PExc payload => dom x <- load_exc payload; raise x
+                    | PExc payload => raise_loaded payload
                     | PReply p => dom m <- unbox f' p;
                                   match methods_ok m with
-                                  | ROk _ => ret (LP idp)
+                                  | ROk _ => dom _ <- class_walk name;
+                                             dom _ <- (if is_zero c then note_class idp else ret tt);
+                                             ret (LP idp)
                                   | RRaise x => raise x
                                   | RUnm => unm
                                   end
@@ -544,7 +613,7 @@ Definition ask (h : Z) (args : list lval) : M lval :=
   dom a <- pop_answer;
   match a with
   | PSilent => raise_std TimeoutError
-  | PExc payload => dom x <- load_exc payload; raise x
+  | PExc payload => raise_loaded payload
   | PReply p => unbox FUEL p
   end.
 (* an operation whose target is a proxy: a conversation with the peer (modelled as one request; flagged approximate) *)
@@ -647,15 +716,16 @@ Definition do_op (op : nop) (a b : lval) : M lval :=
       match b with
       | LV bv =>
           match index2 bv with
-          | ROk (PStr name, _) =>
-              if is_builtin_name name then
+          | ROk (PStr name, b1) =>
+              dom cached <- in_ccache (PTuple [PStr name; b1; PInt 0]);
+              if is_builtin_name name || cached then
                 match a with
                 | LO o => touch OpIsinstance o []
                 | LV v => val_op OpIsinstance v []
                 | _ => unm
                 end
               else ret (LV (PBool false))
-          | ROk _ => unm
+          | ROk _ => ret (LV (PBool false))                  (* a name that is not text is in neither cache *)
           | RRaise x => raise x
           | RUnm => unm
           end
@@ -711,17 +781,21 @@ Definition decref (k c : lval) : M lval :=
 Definition cleanup : M unit :=
   fun s => (with_closed (with_tbl (add_ev (add_ev s EDisconnect) EClear) []), ROk tt).
 
+Definition ctx_of (x : xid) : list (oid * nop) :=
+  match x with XAttrObj o => [(o, OpDir)] | XCarry os => rev (map (fun o => (o, OpStr)) os) | _ => [] end.
 (* try: m  except Exception: h *)
 Definition try_exc {A} (m h : M A) : M A :=
   fun s => match m s with
-           | (s', RRaise x) => if is_exception x then h s' else (s', RRaise x)
+           | (s', RRaise x) => if is_exception x
+                               then h (with_ctxs s' (ctx_of x ++ ctxs s'))   (* what h raises has x as __context__ *)
+                               else (s', RRaise x)
            | r => r
            end.
 (* _handle_ctxexit: raise exc  /  raise self._unbox_exc(exc)  (never returns normally) *)
 Definition ctx_raise (load : bool) (v : lval) : M lval :=
   if load then
     match v with
-    | LV p => dom x <- load_exc p; raise x
+    | LV p => raise_loaded p
     | LO o =>            (* val == EXC_STOP_ITERATION, then (modname, clsname), args, attrs, tbtext = val *)
         dom _ <- touch OpEq o [];
         dom r <- touch OpIter o [];
@@ -865,6 +939,14 @@ Definition propagates (x : xid) : bool :=
 (* serve_all: whatever leaves serve() ends in close() *)
 Definition end_conn (s : state) : state := if closed s then s else fst (cleanup s).
 
+(* what reporting an exception to the peer does to the objects it carries: traceback formatting lists dir(obj) of a failed
+   attribute lookup to suggest a name; vinegar.dump sends repr() of every argument / attribute that is not a plain value *)
+Definition payload_events (x : xid) : list event :=
+  match x with
+  | XAttrObj o => [EPayload o OpDir; EPayload o OpRepr]
+  | XCarry os => map (fun o => EPayload o OpStr) os ++ map (fun o => EPayload o OpRepr) os      (* str(exc) in the traceback text, repr(arg) in the record *)
+  | _ => []
+  end.
 Definition dispatch_request (seq raw : pyval) : state -> state * out :=
   fun s =>
     let m : M lval :=
@@ -882,13 +964,24 @@ Definition dispatch_request (seq raw : pyval) : state -> state * out :=
              end
     | (s1, RRaise x) =>
         if closed s1 then (s1, OClosed)
-        else if propagates x then (end_conn s1, OEnd x) else (s1, OExc seq x)
+        else if propagates x then (end_conn s1, OEnd x)
+        else (fold_left add_ev (map (fun c => ECtx (fst c) (snd c)) (rev (ctxs s1)) ++ payload_events x) s1, OExc seq x)      (* _send_exc: vinegar.dump *)
     | (s1, RUnm) => (s1, OUnm)
     end.
 
-Definition handle_msg (msg : pyval) (answers : list panswer) (s0 : state) : state * out :=
+(* _dispatch_response: try: obj = rebuild(args)  except EOFError: raise  except Exception: deliver the error instead;
+   then the callback registered for seq gets it (none is registered for an unsolicited response: dropped) *)
+Definition escapes_response (x : xid) : bool :=
+  match x with XStd EOFError => true | _ => negb (is_exception x) end.
+Definition response_out {A} (sr : state * res A) : state * out :=
+  match sr with
+  | (s1, ROk _) => (s1, OIgnored)
+  | (s1, RRaise x) => if escapes_response x then (end_conn s1, OEnd x) else (s1, OIgnored)
+  | (s1, RUnm) => (s1, OUnm)
+  end.
+Definition handle_msg_core (msg : pyval) (answers : list panswer) (s0 : state) : state * out :=
   if closed s0 then (s0, ODead) else
-  let s := with_script (add_ev s0 EMsg) answers in
+  let s := with_ctxs (with_script (add_ev s0 EMsg) answers) [] in
   match Vinegar.unpack 3 msg with
   | Ok [kind; seq; args] =>
       match match num_of kind with Some z => assoc_z z ML | None => None end with
@@ -905,11 +998,21 @@ Definition handle_msg (msg : pyval) (answers : list panswer) (s0 : state) : stat
           | (s1, RRaise x) => (end_conn s1, OEnd x)
           | (s1, RUnm) => (s1, OUnm)
           end
+      | Some DReplyG => response_out (unbox FUEL args s)
+      | Some DExceptionG => response_out (load_exc args s)
       | None => (end_conn s, OEnd (XStd ValueError))    (* invalid message type *)
       end
   | Ok _ => (end_conn s, OEnd (XStd ValueError))
   | Raise e => (end_conn s, OEnd (XStd e))
   | _ => (s, OUnm)
+  end.
+
+(* once a message met something the model does not describe, the model says nothing about the rest of the connection *)
+Definition handle_msg (msg : pyval) (answers : list panswer) (s0 : state) : state * out :=
+  if lost s0 then (s0, OUnm) else
+  match handle_msg_core msg answers s0 with
+  | (s', OUnm) => (with_lost s', OUnm)
+  | r => r
   end.
 
 Inductive input := IMsg (msg : pyval) (answers : list panswer) | IEnv (f : W -> W).
@@ -919,7 +1022,8 @@ Definition step (s : state) (i : input) : state * out :=
   | IEnv f => (with_w (add_ev s EEnv) (f (wst s)), OIgnored)
   end.
 Definition run (s : state) (l : list input) : state := fold_left (fun s i => fst (step s i)) l s.
-Definition init (w : W) : state := {| tbl := []; wst := w; tr := []; script := []; closed := false; approx := false |}.
+Definition init (w : W) : state :=
+  {| tbl := []; wst := w; tr := []; script := []; closed := false; approx := false; ccache := []; pseen := []; ctxs := []; lost := false |}.
 End Interp.
 
 (* ------------------------------------------------------------------ a finite world of objects (harness canaries) *)
@@ -944,11 +1048,11 @@ Fixpoint avals (l : list aval) : list lval :=
 Definition empty_env : Vinegar.env :=
   {| Vinegar.builtins_ns := []; Vinegar.modules := []; Vinegar.importable := []; Vinegar.local_major := [] |}.
 (* the builtins namespace as far as the harness uses it: every builtin exception class can be rebuilt with __new__ *)
-Definition exc_env (names : list text) : Vinegar.env :=
+Definition exc_env (names : list text) (mods : list (text * Vinegar.ns)) : Vinegar.env :=
   {| Vinegar.builtins_ns := map (fun n => (n, Vinegar.AExc (Vinegar.Builtin n) true)) names;
-     Vinegar.modules := []; Vinegar.importable := []; Vinegar.local_major := [53%N] |}.
+     Vinegar.modules := mods; Vinegar.importable := []; Vinegar.local_major := [53%N] |}.
 
-Definition world_sem (w : world) (excs : list text) : sem unit :=
+Definition world_sem (w : world) (excs : list text) (mods : list (text * Vinegar.ns)) : sem unit :=
   {| s_root := 0%N;
      s_key := fun o => od_key (desc w o);
      s_type := fun o => od_type (desc w o);
@@ -957,7 +1061,7 @@ Definition world_sem (w : world) (excs : list text) : sem unit :=
                           {| attrs := map fst (od_attrs d); hook_get := g; hook_set := st; hook_del := dl |};
      s_attr := fun _ o p n _ =>
                  (tt, match p with
-                      | PGet => match assoc_t n (od_attrs (desc w o)) with Some a => lv_of_aval AttributeError a | None => RRaise (XStd AttributeError) end
+                      | PGet => match assoc_t n (od_attrs (desc w o)) with Some a => lv_of_aval AttributeError a | None => RRaise (XAttrObj o) end
                       | _ => RUnm
                       end);
      s_hook := fun _ o _ _ _ => (tt, lv_of_aval AttributeError (od_hookres (desc w o)));
@@ -992,7 +1096,7 @@ Definition world_sem (w : world) (excs : list text) : sem unit :=
                 | _ => RUnm
                 end;
      s_builtin_names := w_builtin w;
-     s_env := exc_env excs |}.
+     s_env := exc_env excs mods |}.
 
 (* ------------------------------------------------------------------ harness interface *)
 Definition xid_of_sx (x : sx) : xid :=
@@ -1000,12 +1104,13 @@ Definition xid_of_sx (x : sx) : xid :=
   | SL [SI 0%Z; SI k] =>
       XStd (match k with 0%Z => TypeError | 1%Z => ValueError | 2%Z => AttributeError | 3%Z => KeyError | 4%Z => EOFError
                     | 5%Z => UnicodeError | 6%Z => TimeoutError | 7%Z => StopIteration | 8%Z => IndexError | _ => OtherError end)
-  | SL [SI 1%Z] => XKbd | SL [SI 2%Z] => XSysExit | SL [SI 3%Z] => XBaseOther | _ => XExcOther
+  | SL [SI 1%Z] => XKbd | SL [SI 2%Z] => XSysExit | SL [SI 3%Z] => XBaseOther
+  | SL [SI 5%Z; SL os] => XCarry (map sx_n os) | SL [SI 6%Z; o] => XAttrObj (sx_n o) | _ => XExcOther
   end.
 Definition sx_of_xid (x : xid) : sx :=
   match x with
   | XStd e => SL [SS "std"; SS (exn_name e)] | XKbd => SL [SS "kbd"] | XSysExit => SL [SS "sysexit"]
-  | XBaseOther => SL [SS "base"] | XExcOther => SL [SS "exc"]
+  | XBaseOther => SL [SS "base"] | XExcOther | XCarry _ => SL [SS "exc"] | XAttrObj _ => SL [SS "std"; SS "AttributeError"]
   end.
 Definition aval_of_sx (x : sx) : aval :=
   match x with
@@ -1059,6 +1164,9 @@ Definition sx_of_event (e : event) : sx :=
   | EDecref k n => SL [SS "decref"; sx_of_pv k; SI n]
   | EClear => SL [SS "clear"] | EDisconnect => SL [SS "disconnect"]
   | EAsk h => SL [SS "ask"; SI h]
+  | EPayload o op => SL [SS "payload"; sN o; SS (nop_name op)]
+  | ECtx o op => SL [SS "payload"; sN o; SS (nop_name op)]
+  | ECls m => SL [SS "clsimport"; sx_of_text m]
   | EVin v => SL [SS "vinegar"; Vinegar.sx_of_effect v]
   end.
 Definition sx_of_out (o : out) : sx :=
@@ -1071,22 +1179,26 @@ Definition sx_of_out (o : out) : sx :=
 Definition sx_of_table (t : table) : sx := SL (map (fun e => match e with (k, o, c) => SL [sx_of_pv k; sN o; SI c] end) t).
 
 (* one session: the outcome, the events of that message (oldest first), the table after it, the flags *)
-Fixpoint session (S : sem unit) (s : hst unit) (msgs : list sx) : list sx :=
+Definition config_with (m : Vinegar.lookup_mode) : config :=
+  {| c_attr := c_attr default_config; c_guard := c_guard default_config; c_pickle := c_pickle default_config;
+     c_rflags := c_rflags default_config; c_prop_kbd := c_prop_kbd default_config; c_prop_sysexit := c_prop_sysexit default_config;
+     c_cls_mode := m |}.
+Fixpoint session (C : config) (S : sem unit) (s : hst unit) (msgs : list sx) : list sx :=
   match msgs with
   | [] => []
   | SL [m; a] :: r =>
       let n0 := List.length (tr s) in
-      let '(s', o) := handle_msg S default_config handlers dispatch msg_ladder unbox_ladder box_ladder (pv_of_sx m) (map answer_of_sx (sx_l a)) s in
+      let '(s', o) := handle_msg S C handlers dispatch msg_ladder unbox_ladder box_ladder (pv_of_sx m) (map answer_of_sx (sx_l a)) s in
       let evs := rev (firstn (List.length (tr s') - n0) (tr s')) in
-      SL [sx_of_out o; SL (map sx_of_event evs); sx_of_table (tbl s'); sbool (closed s'); sbool (approx s')] :: session S s' r
-  | _ :: r => bad_input :: session S s r
+      SL [sx_of_out o; SL (map sx_of_event evs); sx_of_table (tbl s'); sbool (closed s'); sbool (approx s')] :: session C S s' r
+  | _ :: r => bad_input :: session C S s r
   end.
 Definition run_hostile (x : sx) : sx :=
   match x with
-  | SL [cmd; objs; builtin; excs; msgs] =>
+  | SL [cmd; mode; objs; builtin; excs; mods; msgs] =>
       if is_tag "session" cmd then
         let w := {| w_objs := map desc_of_sx (sx_l objs); w_builtin := map text_of_sx (sx_l builtin) |} in
-        SL (session (world_sem w (map text_of_sx (sx_l excs))) (init tt) (sx_l msgs))
+        SL (session (config_with (Vinegar.mode_of_sx mode)) (world_sem w (map text_of_sx (sx_l excs)) (Vinegar.mods_of_sx mods)) (init tt) (sx_l msgs))
       else bad_input
   | _ => bad_input
   end.
